@@ -250,6 +250,15 @@ pub fn job_set() -> Vec<Job> {
         j.files[0].1 += &format!("deepok = {}1{}\n", "(".repeat(40), ")".repeat(40));
         v.push(j);
     }
+    // several root files on one command line: they are assembled in the order given
+    {
+        let mut j = job("several-roots", "several-roots", "success", 0, 5, 0, 0, 0, &[]);
+        for (n, t) in [("tail1.asm", "#bank code\ntail1:\n    nop\n"), ("tail2.asm", "#bank code\ntail2:\n    ld 1\n"), ("tail3.asm", "#bank code\ntail3:\n    jmp tail1\n")] {
+            j.files.push((n.to_string(), t.to_string()));
+        }
+        j.argv.splice(1..1, ["tail3.asm", "tail1.asm", "tail2.asm"].iter().map(|s| s.to_string()));
+        v.push(j);
+    }
     // the two format-string jobs: same files as `base`, equally-ranked unknown format parameters
     let mut f1 = job("format-unknown-param-2", "format-unknown-param", "failure", 0, 5, 0, 0, 0, &[]);
     f1.argv = ["main.asm", "-f", "binary,foo:1,bar:2", "-o", "out.txt"].iter().map(|s| s.to_string()).collect();
